@@ -100,6 +100,25 @@ CLAIMS = [
              "tombstone compaction; after all threads joined the directory is strictly recovered and TLC checks recovered census = final live census.",
      "note": "fsync policy Never (no crash here; C01 owns crashes); schedules that do not complete are C08's subject",
      "ref": "DESIGN.md section 6 (C09)"},
+    {"id": "C06",
+     "technique": "TLC model check of TieredSearch.tla (S2) + TLC-generated behaviours replayed on real TieredEngine (3 metrics x 11 dimensions, 4 search flavours) + TLC trace validation against the search oracle (SearchTrace.tla)",
+     "text": "TieredSearch.tla models search over the recent-write tier + canonical store with the query-result cache on an integer line; TLC checks "
+             "AnswersValid / HitIsFresh exhaustively for small constants and generates behaviours; searchlab maps positions to concrete vectors that "
+             "preserve the distance order (unit circle / line families, SIMD-tail dimensions, origins with components > 1, tail-energy variants) and "
+             "runs plain / ef-override / batch / timed searches on the real engine; SearchTrace.tla (TLC) judges every answer: <= k distinct live ids, "
+             "true distance to the current vector, order, completeness for acknowledged un-drained writes.",
+     "note": "set-level and ordering clauses decided by TLC; 'true distance within float tolerance' decided by the f64 reference in the harness (TLC sees the boolean); "
+             "tiny collections (4 ids); degraded answers exempt from completeness as the property says",
+     "ref": "DESIGN.md section 6 (C06)"},
+    {"id": "C07",
+     "technique": "same model / generation / replay as C06 with the verdict on answers served from the query cache, plus TLC-enumerated searcher||writer schedules replayed through the gated parking_lot",
+     "text": "Every answer the engine reports as CacheHit is judged by SearchTrace.tla against the current collection with the completeness set "
+             "extended to every document written since the entry was computed; a hit must be explained by an earlier computed answer of the same "
+             "scope and query with k' >= k. HitIsFresh is model-checked in TieredSearch.tla. The generation guard is exercised by replaying all "
+             "schedules (<= 2 preemptions, LockSched.tla) of one searching and one writing thread and repeating the search afterwards.",
+     "note": "similarity threshold 1.0 (exact-hash hits); real-number soundness of the pruning bound is covered by adversarial concrete placements, not by TLC; "
+             "the saturating query hash found by this check was repaired by a fix: commit",
+     "ref": "DESIGN.md section 6 (C07)"},
 ]
 
 _PENDING = "not yet covered by the specification suite in this revision (see DESIGN.md section 11 for the construction order)"
